@@ -24,8 +24,8 @@ type vFs struct {
 	writes  []string
 	deletes []string
 	advance bool // every write happens at a strictly later instant
-	failAt  int // the failAt-th WriteFile fails (0 = never)
-	tearAt  int // the failing write leaves the first tearAt bytes (-1: nothing written)
+	failAt  int  // the failAt-th WriteFile fails (0 = never)
+	tearAt  int  // the failing write leaves the first tearAt bytes (-1: nothing written)
 	nWrites int
 }
 
